@@ -155,7 +155,10 @@ CHECKS = {
                  "string literals: for every valid literal, either allowTemplate, sloppy and strict mode, the written literal is valid for its delimiter and "
                  "has the same string value (string_literals_keep_their_value) - validating this statement exposed K122 (a NUL escape before a digit), K09 "
                  "(a substitution opened by a decoded escape) and K30 (decoded </script>), all repaired. Ties: 6,000 numeric and 20,000 string literals per "
-                 "run through hooks. BYTES: Js/PrintRender and Js/StmtRender restate the writer (write with needsSpace / spaceBefore, keywords, raw semicolons); for "
+                 "run through hooks. CONCATENATIONS: the literal mergeBinaryExpr + appendStringPart build for \"a\" + 'b' + ... is modelled (Js/StrCat, tied "
+                 "through a hook on 2,500 concatenations per run) and, for all valid literals, its minified form has the concatenation of the parts' "
+                 "values (string_concatenation_keeps_its_value; the one hypothesis - no appended part starts with a UTF-8 continuation byte - is shown "
+                 "necessary by a computed counterexample and holds for well-formed source). BYTES: Js/PrintRender and Js/StmtRender restate the writer (write with needsSpace / spaceBefore, keywords, raw semicolons); for "
                  "every expression with identifier atoms and for every function body meeting conditions on the INPUT list only, the written bytes lex "
                  "back (longest match over the ECMA-262 punctuators) to exactly the printer's tokens: no two tokens fuse, no word joins a word "
                  "(written_bytes_lex_back_to_the_tokens, rewriting_printer_bytes_lex_back, statement_printer_never_joins_words, "
@@ -305,7 +308,7 @@ CHECKS = {
     "C18": {
         "engine": "DataUri", "design_ref": "DESIGN.md section 4 / C18",
         "technique": "Coq proof (round trips for all byte strings, result shape) on extracted models + correspondence after the real parse.DataURI",
-        "text": ("Theorems (Props/C18.v), for every payload over all 256 byte values: percent-encoding and base64 as emitted decode back to exactly the "
+        "text": ("minify.Mediatype, modelled as the in-place array algorithm it is, EQUALS 'drop white space and lower-case outside double-quoted strings' for every input below its own 1024 guard with an even number of quotes (mediatype_is_strip_and_lower_outside_quotes; the odd case and the guard are stated exactly; provable only since the repair of K135, found by the multi-seed sweep). Theorems (Props/C18.v), for every payload over all 256 byte values: percent-encoding and base64 as emitted decode back to exactly the "
                  "encoded bytes (RFC 3986/4648 decoders as spec); the helper's result is the original (only if shorter than both encodings) or "
                  "data:<stripped type>[;base64],<payload> in the shorter encoding; the lengths compared are the real lengths; 'never longer' is refuted "
                  "(K50). Tie: extracted models vs minify.DataURI (fed by the real parse.DataURI and stub sub-minifiers), base64.StdEncoding, the real "
